@@ -73,19 +73,12 @@ def pick_mode(rng, heavy_ok=True):
 
 # ----------------------------------------------------------------------------- expressions
 
-CLEAN_OPS = {"col", "lit", "add", "sub", "neg", "cast", "gt", "gt_eq", "lt", "lt_eq", "eq", "and"}
-
-
-def is_clean(c):
-    """expression family on which no node-level known finding can act"""
-    g = c.get("given")
-    return all(n["op"] in CLEAN_OPS for n in c["nodes"]) and (g is None or (g["lo"], g["hi"]) == (1, 1))
-
-
 def gen_expr(rng, cols, clean=False):
-    """cols: list of column types.  Returns node list (post-order); root is boolean or numeric."""
+    """cols: list of column types.  Returns node list (post-order); root is boolean or numeric.
+    clean (update_ranges / analyze): the shapes intervals::utils::check_support admits minus integer mul/div (whose
+    node-level findings they would merely inherit): + - neg cast, comparisons, AND.  Otherwise (evaluate_bounds only):
+    additionally multiplication by a non-zero literal, <>, OR, NOT."""
     nodes = []
-    arith = ["add", "sub"] if clean else ARITH
     cmps = CMP[:5]
 
     def add(op, l=0, r=0, v=0, ty=""):
@@ -105,9 +98,13 @@ def gen_expr(rng, cols, clean=False):
             v = rng.choice([0, 1, 2, 3, 5, 10, tmax, tmin, -1, -2, -7, tmax - 1, tmin + 1])
             return add("lit", v=max(tmin, min(tmax, v)), ty=ty)
         if r < 0.85:
-            op = rng.choice(arith if rng.random() < 0.8 else ["add", "sub"])
+            if not clean and rng.random() < 0.3:
+                l = num(ty, depth - 1)
+                tmin, tmax = TYS[ty]
+                rr = add("lit", v=rng.choice([2, 3, 5] + ([-1, -2, -3] if tmin < 0 else [])), ty=ty)
+                return add("mul", l=l, r=rr, ty=ty) if rng.random() < 0.5 else add("mul", l=rr, r=l, ty=ty)
             l = num(ty, depth - 1); rr = num(ty, depth - 1)
-            return add(op, l=l, r=rr, ty=ty)
+            return add(rng.choice(["add", "sub"]), l=l, r=rr, ty=ty)
         if r < 0.93 and ty in ("i8", "i16"):
             return add("neg", l=num(ty, depth - 1), ty=ty)
         t2 = rng.choice([t for t in ("i8", "u8", "i16") if t != ty])
@@ -130,7 +127,7 @@ def gen_expr(rng, cols, clean=False):
 def expr_case(rng, kind):
     ncol = rng.choice([1, 2, 2])
     cols = [rng.choice(["i8", "i8", "u8"]) for _ in range(ncol)]
-    clean = rng.random() < 0.65
+    clean = kind == "update"
     nodes, (boolean, num) = gen_expr(rng, cols, clean)
     depth = rng.choice([1, 2, 2, 3])
     if kind == "bounds" and rng.random() < 0.5:
@@ -148,7 +145,7 @@ def expr_case(rng, kind):
     c = {"cls": kind, "nodes": nodes, "ranges": ranges}
     if kind == "update":
         if nodes[-1]["ty"] == "b":
-            c["given"] = biv((1, 1) if clean else rng.choice([(1, 1), (1, 1), (0, 0), (0, 1)]))
+            c["given"] = biv((1, 1))      # the target every caller (analyze, symmetric hash join) passes
         c["via"] = "analyze" if rng.random() < 0.25 else "graph"
         if c["via"] == "analyze":
             c["given"] = biv((1, 1))
@@ -246,7 +243,7 @@ def gen_cases(ctx, edge_pairs):
         for k in range(55 * m):
             ty = rng.choice(["i8", "i8", "u8", "i16"])
             via = ("fn", "pexpr", "satisfy")[k % 3] if op in ("gt", "gt_eq") else ("fn", "pexpr")[k % 2]
-            p = (1, 1) if via == "satisfy" else rng.choice([(1, 1), (1, 1), (0, 0), (0, 0), (0, 1)])
+            p = (1, 1) if via == "satisfy" or op == "eq" else rng.choice([(1, 1), (1, 1), (0, 0)])
             if rng.random() < 0.5:       # overlapping / touching operands
                 a = rand_iv(rng, ty, pick_mode(rng, False)); tmin, tmax = TYS[ty]
                 lo = (tmin if a["lu"] else a["lo"]); hi = (tmax if a["hu"] else a["hi"])
@@ -260,7 +257,7 @@ def gen_cases(ctx, edge_pairs):
     for (pa, pb) in edge_pairs[: (60 if q else len(edge_pairs))]:
         for op in (CMP[:5] if not q else rng.sample(CMP[:5], 2)):
             via = rng.choice(["fn", "pexpr"] + (["satisfy"] if op in ("gt", "gt_eq") else []))
-            emit({"cls": "prop2", "op": op, "via": via, "p": biv((1, 1) if via == "satisfy" else rng.choice([(1, 1), (0, 0)])), "a": pa, "b": pb})
+            emit({"cls": "prop2", "op": op, "via": via, "p": biv((1, 1) if via == "satisfy" or op == "eq" else rng.choice([(1, 1), (0, 0)])), "a": pa, "b": pb})
     for op in ("and", "or"):
         for p in BOOLS:
             for x in BOOLS:
@@ -294,8 +291,7 @@ KF_MULOV = "Interval::mul, both operands contain zero and a corner product overf
 KF_PDIV = "propagate_arithmetic(Divide) on integer types (truncating division inverted by multiplication)"
 KF_PMUL0 = "propagate_arithmetic(Multiply) dividing by a factor interval with zero as an endpoint (or a [negative, 0] parent)"
 KF_SWAP = "propagate_comparison with a certainly-false parent returns the children in swapped order"
-KF_UNCERTAIN = "propagate_comparison returns None (= infeasible) for an uncertain parent / for Eq under a certainly-false parent"
-KF_GRAPH = "ExprIntervalGraph over an expression with NOT/OR/non-TRUE target or integer mul/div (consequence of the node-level findings)"
+KF_PDIV0 = "propagate_arithmetic(Divide) with zero as an endpoint of an operand (inherits the integer zero-endpoint division defect)"
 
 
 def lo_hi(i):
@@ -324,20 +320,40 @@ def finding_key(ev, swap_ok=False):
         if any(not (tmin <= x * y <= tmax) for x in (al, ah) for y in (bl, bh)):
             return KF_MULOV
     if cls == "prop2" and op == "div":
-        return KF_PDIV
+        return div_prop_key(ev)
     if cls == "prop2" and op == "mul":
         mid = ev.get("mid")
         divisors = [ev["a"], ev["b"]] + ([mid] if isinstance(mid, dict) else [])
         if any(0 in lo_hi(x) for x in divisors) or neg_to_zero(ev["p"]):
             return KF_PMUL0
-    if cls == "prop2" and op in CMP:
-        pl, ph = ev["p"]["lo"], ev["p"]["hi"]
-        if ev["rk"] == "none" and ((pl, ph) == (0, 1) or (op == "eq" and (pl, ph) == (0, 0))):
-            return KF_UNCERTAIN
-        if (pl, ph) == (0, 0) and op in CMP[:4] and swap_ok:
-            return KF_SWAP
-    if cls in ("bounds", "update") and not is_clean(ev):
-        return KF_GRAPH
+    if cls == "prop2" and op in CMP[:4] and (ev["p"]["lo"], ev["p"]["hi"]) == (0, 0) and swap_ok:
+        return KF_SWAP
+    return None
+
+
+def tdiv(x, y):
+    q = abs(x) // abs(y)
+    return q if (x >= 0) == (y > 0) else -q
+
+
+def div_prop_key(ev):
+    """classify a rejected propagate_arithmetic(Divide) event by the satisfying pairs it removed: every removed pair divides
+    inexactly -> the truncation finding; otherwise only the zero-endpoint finding can explain it (some interval involved has 0
+    as an endpoint), else no key (VIOLATION)."""
+    (al, ah), (bl, bh), (pl, ph) = lo_hi(ev["a"]), lo_hi(ev["b"]), lo_hi(ev["p"])
+    tmin, tmax = TYS[ev["rt"]]
+    if (ah - al + 1) * (bh - bl + 1) > 80000:
+        pairs = [(ev["wa"], ev["wb"])]
+    else:
+        pairs = [(x, y) for x in range(al, ah + 1) for y in range(bl, bh + 1)]
+    keep = (lambda x, y: False) if ev["rk"] == "none" else \
+        (lambda x, y, r1=lo_hi(ev["r1"]), r2=lo_hi(ev["r2"]): r1[0] <= x <= r1[1] and r2[0] <= y <= r2[1])
+    removed = [(x, y) for (x, y) in pairs if y != 0 and tmin <= tdiv(x, y) <= tmax and pl <= tdiv(x, y) <= ph and not keep(x, y)]
+    if removed and all(x % y != 0 for (x, y) in removed):
+        return KF_PDIV
+    ivs = [ev["a"], ev["b"], ev["p"]] + ([ev["r1"], ev["r2"]] if ev["rk"] == "pair" else [])
+    if any(0 in lo_hi(x) for x in ivs):
+        return KF_PDIV0
     return None
 
 
